@@ -526,4 +526,30 @@ def concRun (tmp : Nat → String) (chunks : Nat → List (List Nat)) (c : Conc)
 
 def concInit (w : World) : Conc := ⟨w, fun _ => .idle⟩
 
+/-! ### the byte-level API: ptt.WriteFavorites stores the client's `.fav`, ptt.GetFavorites hands it back -/
+
+/-- the limit of the reader in `GetFavorites` (regenerated: `io.ReadAll(file)` is `none`). -/
+def GET_LIMIT : Option Nat := Gen.Fav.getFavoritesReadLimit
+
+/-- `io.ReadAll(file)` / `io.ReadAll(io.LimitReader(file, n))`: a limited reader stops silently. -/
+def readAllLimited (limit : Option Nat) (c : List Nat) : List Nat :=
+  match limit with
+  | none => c
+  | some n => c.take n
+
+/-- `GetFavorites(userID, retrieveTS)` on a home directory whose `.fav` is `file` (content, mtime) or absent
+(and no `.fav4`): `(nil, 0)` without a file, `(nil, mtime)` when the caller's copy is not older, else the
+content. -/
+def getFavorites (file : Option (List Nat × Nat)) (retrieveTS : Nat) : Option (List Nat) × Nat :=
+  match file with
+  | none => (none, 0)
+  | some (c, m) =>
+    if m = 0 then (none, 0)
+    else if m ≤ retrieveTS then (none, m)
+    else (some (readAllLimited GET_LIMIT c), m)
+
+/-- the largest `.fav` the API limits allow: version word, root header, `MAX_FAV` folder entries with their
+sub-headers (a folder costs 52 + 4 bytes, more than a board's 14 or a line's 3). -/
+def MAX_FILE : Nat := 2 + 4 + MAX_FAV * (52 + 4)
+
 end PttVerif.C19
